@@ -941,6 +941,11 @@ class Visitor : public RecursiveASTVisitor<Visitor> {
   }
   bool VisitLambdaExpr(LambdaExpr *LE) {
     Ex.addFunction(LE->getCallOperator());
+    // a generic lambda ([](auto &x) {...}): its call operator is a template; the bodies that run are its specialisations
+    if (LE->isGenericLambda())
+      if (const FunctionTemplateDecl *FTD = LE->getCallOperator()->getDescribedFunctionTemplate())
+        for (FunctionDecl *Spec : FTD->specializations())
+          if (Spec->doesThisDeclarationHaveABody()) Ex.addFunction(Spec);
     return true;
   }
   bool VisitCXXRecordDecl(CXXRecordDecl *RD) {
